@@ -1001,3 +1001,26 @@ def gen_c07_boundaries(rng, tier):
                     if pe.file_len < (1 << 20):
                         cases.append([img_line(rng, pe.build(), 0, "e")] + ["from_bytes " + k for k in ("f32", "f64", "wf")] + ["hdr f%d" % bits])
     return cases
+
+
+def module_twin_cases(src_gen, limit_quick=60, limit_thorough=2000):
+    """-> generator: the images of `src_gen` that are read as mapped views, through the unsafe constructor
+    `PeView::module(base)` beside `from_bytes(..).set_base_address(base)` (`iter <k> module -`, answered by the harness
+    alone: same bytes, same base, same address conversions, same get_proc_address answers)"""
+    def g(rng, tier):
+        import random
+        r2 = random.Random()
+        r2.setstate(rng.getstate())
+        out = []
+        for case in src_gen(r2, "quick"):
+            img = [l for l in case if l.startswith("img ")]
+            if not img or not any((" v32" in l or " v64" in l or " wv" in l) for l in case):
+                continue
+            out.append([img[-1], "iter v32 module -", "iter v64 module -"])
+        lim = limit_quick if tier == "quick" else limit_thorough
+        if len(out) > lim:
+            out = [out[i] for i in sorted(rng.sample(range(len(out)), lim))]
+        return out
+    g.__name__ = "module_twin_" + src_gen.__name__
+    g.__module__ = getattr(src_gen, "__module__", "")
+    return g
